@@ -37,7 +37,7 @@ def run(ctx):
     maxlen = 5 if ctx.tier == 'quick' else 7
     nsh = 16 if ctx.tier == 'quick' else 64
     jobs = [['c11', maxlen, i, nsh] for i in range(nsh)]
-    nrand = 1500 if ctx.tier == 'quick' else 60000
+    nrand = 6000 if ctx.tier == 'quick' else 60000
     jobs += [['c11r', ctx.seed * 77 + i, nrand] for i in range(16)]
     tot = {}
 
